@@ -1963,6 +1963,8 @@ class _BoolFold:
 
     def atom(self, text: str, val: dict[str, bool]):
         a, pol = self.LINKS.get(text, (text, True))
+        if text not in self.LINKS and text.endswith(" is not None"):
+            a, pol = text[: -len(" is not None")] + " is None", False  # the two spellings of one presence test
         if a not in self.atoms:
             self.atoms.append(a)
         return val.get(a, False) == pol
@@ -1990,6 +1992,11 @@ class _BoolFold:
             if self.discover:
                 self.ev(e.body, env, val), self.ev(e.orelse, env, val)
             return self.ev(e.body if self.ev(e.test, env, val) else e.orelse, env, val)
+        if isinstance(e, ast.Compare) and len(e.ops) == 1 and isinstance(e.ops[0], (ast.Eq, ast.NotEq)) and (
+                (isinstance(e.left, ast.Name) and isinstance(env.get(e.left.id), bool)) or isinstance(e.left, (ast.BoolOp, ast.Compare))) \
+                and isinstance(e.comparators[0], (ast.Name, ast.BoolOp, ast.Compare, ast.UnaryOp)):
+            a, b = bool(self.ev(e.left, env, val)), bool(self.ev(e.comparators[0], env, val))  # equality of two flags
+            return (a == b) if isinstance(e.ops[0], ast.Eq) else (a != b)
         return self.atom(unparse(e), val)
 
 
